@@ -165,13 +165,31 @@ Definition w_now : list op :=
    Add 2 [mkd 0 0 false [] ["/k/:z"]];
    Delete 0].
 
-Lemma w_now_ok : wf_history w_now = true /\ open_guards w_now = false /\
+Lemma w_now_ok : wf_history w_now = true /\ open_guards w_now = false /\ dirty w_now = [] /\
   guard_F3 w_now = true /\ guard_F4 w_now = true /\ guard_F5 w_now = true /\
   length (current w_now) = 3 /\ length (index (Model.run all_fix w_now)) = 3 /\
   m_answer (Model.run all_fix w_now) 0 "/d" = Some 1 /\ m_answer (Model.run all_fix w_now) 0 "/k/7" = Some 0 /\
   m_answer (Model.run all_fix w_now) 0 "/a:b" = None.
 Proof. vm_compute. repeat split; reflexivity. Qed.
 
-Lemma w_plain_now : wf_history w_plain = true /\ open_guards w_plain = false /\
+Lemma w_plain_now : wf_history w_plain = true /\ open_guards w_plain = false /\ dirty w_plain = [] /\
   length (index (Model.run all_fix w_plain)) = 3 /\ m_answer (Model.run all_fix w_plain) 1 "/b/x" = Some 10.
+Proof. vm_compute. repeat split; reflexivity. Qed.
+
+(** a history that goes through C06-F1 and C06-F2 and recovers: source 0 is hit by
+    F1 (rule re-appended), source 1 is loaded with the F2 shape; both rule sets are
+    deleted and created again.  The history-global guards fire, no source is dirty
+    at the end: the main theorem applies. *)
+Definition w_reset : list op :=
+  w_F1 ++
+  [Add 1 [mkd 0 0 true [1] ["/y"]; mkd 1 0 false [2] ["/y"]; mkd 2 0 false [] ["/:z"]];
+   Update 0 [mkd 0 2 false [] ["/x"]; mkd 1 0 false [] ["/x"]];
+   Delete 0; Delete 1;
+   Add 0 [mkd 0 2 false [] ["/x"]; mkd 1 0 false [] ["/x"]];
+   Add 1 [mkd 2 0 false [] ["/:z"]]].
+
+Lemma w_reset_ok : wf_history w_reset = true /\ guard_dupid w_reset = false /\
+  guard_F1 w_reset = true /\ guard_F2 w_reset = true /\ dirty w_reset = [] /\
+  dirty (firstn 4 w_reset) = [0; 1; 0] /\
+  length (index (Model.run all_fix w_reset)) = 2 /\ m_answer (Model.run all_fix w_reset) 0 "/x" = Some 2.
 Proof. vm_compute. repeat split; reflexivity. Qed.
